@@ -10,7 +10,7 @@ from .. import alg
 from ..alg import E, lift, ZERO, ONE
 from ..interp import Interp, RaiseSig
 from ..values import symarr, Record, ClassVal, IntSym, Unsupported
-from .common import public, defloc, short, ident_arr, sym_matrix, enum, explore_exits
+from .common import public, defloc, short, ident_arr, sym_matrix, enum, explore_exits, dtype_rule
 from .c11 import voigt_index
 from . import driver
 
@@ -105,7 +105,9 @@ def run(ctx):
         tag = f"assemblage={assemblage}" + (f":{variant}" if variant else "")
         phs = [enum(I, "pydrex.core.MineralPhase", a) for a in assemblage]
         try:
+            t0 = len(I.trace)
             out = I.call(f, (ms, list(phs), list(fr), st))
+            dtype_rule(ctx, I, t0, [ms, st], dotted, construct=tag)
         except RaiseSig as r:
             ctx.ob("C10.average", tag, False, f"raises {r.exc.typename} (line {getattr(r.exc.node, 'lineno', '?')})", loc)
             continue
